@@ -178,7 +178,8 @@ Proof.
         apply extract_found in X.
         eapply teq_trans; [| apply teq_sym; apply teq_apply; exact X].
         rewrite !apply_cons. apply teq_cons; auto.
-      * destruct ((b =? n) || occurs b t1_1) eqn:G; try discriminate.
+      * destruct ((b =? n) || occurs b t1_1 || row_tail_is b t1_2) eqn:G0; try discriminate.
+        apply orb_false_iff in G0 as [G _].
         apply orb_false_iff in G as [G1 G2]. apply Nat.eqb_neq in G1.
         match type of H with context [unify ?f ?m ?e] =>
           destruct (unify f m e) as [[s0 n0]| |] eqn:U; try discriminate end.
@@ -558,7 +559,7 @@ Proof.
       pose proof (nogen_extract l (TVar n) (RCons l0 t2_1 t2_2)) as X.
       destruct (extract l (TVar n) (RCons l0 t2_1 t2_2)); try discriminate.
       * eapply IH; [| exact H]. simpl in X. repeat (constructor; simpl; try tauto).
-      * destruct ((b =? n) || occurs b t1_1); try discriminate.
+      * destruct ((b =? n) || occurs b t1_1 || row_tail_is b t1_2); try discriminate.
         match type of H with context [unify ?f ?m ?e] =>
           destruct (unify f m e) as [[s0 n0]| |] eqn:U; try discriminate end.
         inv H. constructor; simpl; try tauto.
@@ -1236,7 +1237,7 @@ Proof.
           inv EX. erewrite IHrow2; eauto. }
         destruct EX' as (r' & EX' & _). rewrite EX' in Y. destruct Y.
         eapply IH; [| exact H]. repeat (constructor; simpl; auto).
-      * destruct ((b =? n) || occurs b t1_1); try discriminate.
+      * destruct ((b =? n) || occurs b t1_1 || row_tail_is b t1_2); try discriminate.
         match type of H with context [unify ?f ?m ?e] =>
           destruct (unify f m e) as [[s0 n0]| |] eqn:U; try discriminate end.
         inv H.
@@ -2390,3 +2391,468 @@ Definition infer_unused_let_full_stmt : Prop :=
   forall x e1 e2 fuel t1 t2,
     occ x e2 = false -> infer_top fuel e1 = Ok t1 -> infer_top fuel e2 = Ok t2 ->
     exists t, infer_top fuel (ELet x e1 e2) = Ok t /\ alpha_eq t t2 = true.
+
+
+(* ------------------------------------------------------------------ general alpha-equivalence *)
+
+(* [aeq m e e']: e and e' are equal up to the names of their bound variables; m lists the pairs of
+   corresponding binders in scope, innermost first (a variable is related to a variable when both
+   refer to the binder at the same position, or both are free). *)
+Inductive aeq : list (nat * nat) -> expr -> expr -> Prop :=
+| AE_Int m : aeq m EInt EInt
+| AE_Str m : aeq m EStr EStr
+| AE_Var m x x' : index_of x (map fst m) = index_of x' (map snd m) ->
+    (index_of x (map fst m) = None -> x = x') -> aeq m (EVar x) (EVar x')
+| AE_Lam m x x' e e' : aeq ((x, x') :: m) e e' -> aeq m (ELam x e) (ELam x' e')
+| AE_App m a a' b b' : aeq m a a' -> aeq m b b' -> aeq m (EApp a b) (EApp a' b')
+| AE_Let m x x' a a' b b' : aeq m a a' -> aeq ((x, x') :: m) b b' -> aeq m (ELet x a b) (ELet x' a' b')
+| AE_Fix m f f' x x' e e' : aeq ((x, x') :: (f, f') :: m) e e' -> aeq m (EFix f x e) (EFix f' x' e')
+| AE_If m c c' a a' b b' : aeq m c c' -> aeq m a a' -> aeq m b b' -> aeq m (EIf c a b) (EIf c' a' b')
+| AE_Eq m a a' b b' : aeq m a a' -> aeq m b b' -> aeq m (EEq a b) (EEq a' b')
+| AE_FNil m : aeq m EFNil EFNil
+| AE_FCons m l a a' b b' : aeq m a a' -> aeq m b b' -> aeq m (EFCons l a b) (EFCons l a' b')
+| AE_Proj m l a a' : aeq m a a' -> aeq m (EProj a l) (EProj a' l)
+| AE_ANil m : aeq m EANil EANil
+| AE_ACons m a a' b b' : aeq m a a' -> aeq m b b' -> aeq m (EACons a b) (EACons a' b').
+
+(* two environments with the same types under corresponding names *)
+Definition env3 := list (nat * nat * ty).
+Definition envL (M : env3) : env := map (fun p => (fst (fst p), snd p)) M.
+Definition envR (M : env3) : env := map (fun p => (snd (fst p), snd p)) M.
+Definition names (M : env3) : list (nat * nat) := map fst M.
+Definition map3 (f : ty -> ty) (M : env3) : env3 := map (fun p => (fst p, f (snd p))) M.
+
+Lemma apply_env_L : forall s M, apply_env s (envL M) = envL (map3 (apply s) M).
+Proof. intros. unfold apply_env, envL, map3. rewrite !map_map. reflexivity. Qed.
+Lemma apply_env_R : forall s M, apply_env s (envR M) = envR (map3 (apply s) M).
+Proof. intros. unfold apply_env, envR, map3. rewrite !map_map. reflexivity. Qed.
+Lemma names_map3 : forall f M, names (map3 f M) = names M.
+Proof. intros. unfold names, map3. rewrite map_map. reflexivity. Qed.
+Lemma ftv_env_LR : forall M, ftv_env (envL M) = ftv_env (envR M).
+Proof. induction M as [|[[x x'] t] M]; simpl; auto. unfold ftv_env in *; simpl. rewrite IHM. reflexivity. Qed.
+Lemma gen_LR : forall M t, gen (envL M) t = gen (envR M) t.
+Proof. intros. unfold gen, gen_vars. rewrite ftv_env_LR. reflexivity. Qed.
+
+Lemma lookup_LR : forall M x x',
+  index_of x (map fst (names M)) = index_of x' (map snd (names M)) ->
+  lookup x (envL M) = lookup x' (envR M).
+Proof.
+  induction M as [|[[y y'] t] M]; simpl; intros x x' H; auto.
+  destruct (x =? y) eqn:E; destruct (x' =? y') eqn:E'; auto.
+  - destruct (index_of x' (map snd (names M))); simpl in H; discriminate.
+  - destruct (index_of x (map fst (names M))); simpl in H; discriminate.
+  - apply IHM.
+    destruct (index_of x (map fst (names M))), (index_of x' (map snd (names M))); simpl in H; congruence.
+Qed.
+
+Lemma aeq_shape : forall m e e', aeq m e e' ->
+  is_fields e = is_fields e' /\ is_elems e = is_elems e' /\ forall l, has_label l e = has_label l e'.
+Proof.
+  induction 1; simpl; auto.
+  - destruct IHaeq2 as (A & B & C). repeat split; auto. intros l0. rewrite C. reflexivity.
+  - destruct IHaeq2 as (A & B & C). repeat split; auto.
+Qed.
+
+(* Alpha-equivalent programs get the same substitution, type and variable numbering. *)
+Theorem infer_alpha_gen : forall m e e', aeq m e e' ->
+  forall M fuel n, names M = m -> infer fuel (envL M) e n = infer fuel (envR M) e' n.
+Proof.
+  induction 1; intros M fuel n0 N; simpl; auto.
+  - subst m. rewrite (lookup_LR M x x'); auto.
+  - rewrite (IHaeq ((x, x', TVar n0) :: M)); [reflexivity | simpl; congruence].
+  - rewrite (IHaeq1 M); auto. destruct (infer fuel (envR M) a' n0) as [[[s1 t1] n1]| |]; simpl; auto.
+    rewrite apply_env_L, apply_env_R. rewrite IHaeq2; [reflexivity | rewrite names_map3; auto].
+  - rewrite (IHaeq1 M); auto. destruct (infer fuel (envR M) a' n0) as [[[s1 t1] n1]| |]; simpl; auto.
+    rewrite apply_env_L, apply_env_R, gen_LR.
+    rewrite (IHaeq2 ((x, x', gen (envR (map3 (apply s1) M)) t1) :: map3 (apply s1) M));
+      [reflexivity | simpl; rewrite names_map3; congruence].
+  - rewrite (IHaeq ((x, x', TVar n0) :: (f, f', TFun (TVar n0) (TVar (S n0))) :: M));
+      [reflexivity | simpl; congruence].
+  - rewrite (IHaeq1 M); auto. destruct (infer fuel (envR M) c' n0) as [[[s0 t0] n00]| |]; simpl; auto.
+    destruct (unify fuel n00 [(t0, tbool)]) as [[u0 m0]| |]; simpl; auto.
+    rewrite apply_env_L, apply_env_R. rewrite IHaeq2; [| rewrite names_map3; auto].
+    destruct (infer fuel (envR (map3 (apply (s0 ++ u0)) M)) a' m0) as [[[s1 t1] n1]| |]; simpl; auto.
+    rewrite apply_env_L, apply_env_R. rewrite IHaeq3; [reflexivity | rewrite !names_map3; auto].
+  - rewrite (IHaeq1 M); auto. destruct (infer fuel (envR M) a' n0) as [[[s1 t1] n1]| |]; simpl; auto.
+    destruct (unify fuel n1 [(t1, tint)]) as [[u1 m1]| |]; simpl; auto.
+    rewrite apply_env_L, apply_env_R. rewrite IHaeq2; [reflexivity | rewrite names_map3; auto].
+  - destruct (aeq_shape _ _ _ H0) as (A & _ & C). rewrite A, C.
+    destruct (negb (is_fields b') || has_label l b'); auto.
+    rewrite (IHaeq1 M); auto. destruct (infer fuel (envR M) a' n0) as [[[s1 t1] n1]| |]; simpl; auto.
+    rewrite apply_env_L, apply_env_R. rewrite IHaeq2; [reflexivity | rewrite names_map3; auto].
+  - rewrite (IHaeq M); auto.
+  - destruct (aeq_shape _ _ _ H0) as (_ & B & _). rewrite B.
+    destruct (negb (is_elems b')); auto.
+    rewrite (IHaeq1 M); auto. destruct (infer fuel (envR M) a' n0) as [[[s1 t1] n1]| |]; simpl; auto.
+    rewrite apply_env_L, apply_env_R. rewrite IHaeq2; [reflexivity | rewrite names_map3; auto].
+Qed.
+
+(* closed programs *)
+Theorem infer_alpha : forall e e' fuel, aeq [] e e' -> infer_top fuel e = infer_top fuel e'.
+Proof.
+  intros e e' fuel H. unfold infer_top.
+  pose proof (infer_alpha_gen [] e e' H [] fuel 0 eq_refl) as Q. simpl in Q. rewrite Q. reflexivity.
+Qed.
+
+
+(* ------------------------------------------------------------------ shifting type variables *)
+
+Definition shift (k : nat) (t : ty) : ty := tsubst (fun x => TVar (x + k)) t.
+Definition shift_sub (k : nat) (s : subst) : subst := map (fun p => (fst p + k, shift k (snd p))) s.
+Definition shift_eqs (k : nat) (eqs : list (ty * ty)) : list (ty * ty) :=
+  map (fun p => (shift k (fst p), shift k (snd p))) eqs.
+Definition shift_env (k : nat) (G : env) : env := map (fun p => (fst p, shift k (snd p))) G.
+
+Lemma occurs_shift : forall k x t, occurs (x + k) (shift k t) = occurs x t.
+Proof.
+  unfold shift; induction t; simpl; auto.
+  - destruct (x =? n) eqn:E.
+    + apply Nat.eqb_eq in E; subst. apply Nat.eqb_refl.
+    + apply Nat.eqb_neq in E. apply Nat.eqb_neq. lia.
+  - rewrite IHt1, IHt2; auto.
+  - rewrite IHt1, IHt2; auto.
+Qed.
+
+Lemma subst1_shift : forall k x u t, subst1 (x + k) (shift k u) (shift k t) = shift k (subst1 x u t).
+Proof.
+  intros. unfold subst1, shift. rewrite !tsubst_comp. apply tsubst_ext. intros y. simpl.
+  unfold single. destruct (x =? y) eqn:E.
+  - apply Nat.eqb_eq in E; subst. rewrite Nat.eqb_refl. reflexivity.
+  - assert (E' : x + k =? y + k = false) by (apply Nat.eqb_neq; apply Nat.eqb_neq in E; lia).
+    rewrite E'. reflexivity.
+Qed.
+
+Lemma subst_eqs_shift : forall k x u eqs,
+  subst_eqs (x + k) (shift k u) (shift_eqs k eqs) = shift_eqs k (subst_eqs x u eqs).
+Proof.
+  intros. unfold subst_eqs, shift_eqs. rewrite !map_map. apply map_ext. intros [a b]; simpl.
+  rewrite !subst1_shift. reflexivity.
+Qed.
+
+Lemma row_closed_shift : forall k r, row_closed (shift k r) = row_closed r.
+Proof. unfold shift; induction r; simpl; auto. Qed.
+
+Lemma row_tail_is_shift : forall k b r, row_tail_is (b + k) (shift k r) = row_tail_is b r.
+Proof.
+  unfold shift; induction r; simpl; auto.
+  destruct (b =? n) eqn:E.
+  - apply Nat.eqb_eq in E; subst. apply Nat.eqb_refl.
+  - apply Nat.eqb_neq. apply Nat.eqb_neq in E. lia.
+Qed.
+
+Definition shift_extr (k : nat) (x : extr) : extr :=
+  match x with
+  | ExFound a r => ExFound (shift k a) (shift k r)
+  | ExTail b r => ExTail (b + k) (shift k r)
+  | ExNone => ExNone
+  end.
+
+Lemma extract_shift : forall k l d row, extract l (shift k d) (shift k row) = shift_extr k (extract l d row).
+Proof.
+  intros k l d. unfold shift. induction row; simpl; auto.
+  destruct (l =? l0); auto.
+  fold (shift k row2). fold (shift k d) in *. unfold shift in *. rewrite IHrow2.
+  destruct (extract l d row2); simpl; auto.
+Qed.
+
+Definition shift_ures (k : nat) (r : res (subst * nat)) : res (subst * nat) :=
+  match r with Ok (s, n) => Ok (shift_sub k s, n + k) | Fail => Fail | OutOfFuel => OutOfFuel end.
+
+Lemma eqb_shift : forall k a b, (a + k =? b + k) = (a =? b).
+Proof.
+  intros. destruct (a =? b) eqn:E.
+  - apply Nat.eqb_eq in E; subst. apply Nat.eqb_refl.
+  - apply Nat.eqb_neq. apply Nat.eqb_neq in E. lia.
+Qed.
+
+Lemma unify_rcons : forall fuel n l a r l' a' r' rest,
+  unify (S fuel) n ((RCons l a r, RCons l' a' r') :: rest) =
+  if l =? l' then unify fuel n ((a, a') :: (r, r') :: rest)
+  else if row_closed r && row_closed r' then Fail
+  else match extract l (TVar n) (RCons l' a' r') with
+       | ExFound a'' r'' => unify fuel n ((a, a'') :: (r, r'') :: rest)
+       | ExTail b r'' =>
+           if (b =? n) || occurs b a || row_tail_is b r then Fail
+           else let u := RCons l a (TVar n) in
+                match unify fuel (S n) (subst_eqs b u ((r, r'') :: rest)) with
+                | Ok (s, n') => Ok ((b, u) :: s, n')
+                | Fail => Fail
+                | OutOfFuel => OutOfFuel
+                end
+       | ExNone => Fail
+       end.
+Proof. reflexivity. Qed.
+
+Lemma unify_shift_row : forall k fuel,
+  (forall n eqs, unify fuel (n + k) (shift_eqs k eqs) = shift_ures k (unify fuel n eqs)) ->
+  forall n l a r l' a' r' rest,
+  unify (S fuel) (n + k) ((RCons l (shift k a) (shift k r), RCons l' (shift k a') (shift k r')) :: shift_eqs k rest) =
+  shift_ures k (unify (S fuel) n ((RCons l a r, RCons l' a' r') :: rest)).
+Proof.
+  intros k fuel IH n l a r l' a' r' rest.
+  rewrite !unify_rcons.
+  destruct (l =? l') eqn:El.
+  - apply (IH n ((a, a') :: (r, r') :: rest)).
+  - rewrite !row_closed_shift. destruct (row_closed r && row_closed r'); auto.
+    change (TVar (n + k)) with (shift k (TVar n)).
+    change (RCons l' (shift k a') (shift k r')) with (shift k (RCons l' a' r')).
+    rewrite extract_shift.
+    destruct (extract l (TVar n) (RCons l' a' r')) as [a'' r''|b r''|]; unfold shift_extr; cbv beta iota; auto.
+    + apply (IH n ((a, a'') :: (r, r'') :: rest)).
+    + change (shift k (TVar n)) with (TVar (n + k)).
+      rewrite eqb_shift, occurs_shift, row_tail_is_shift.
+      destruct ((b =? n) || occurs b a || row_tail_is b r); auto.
+      cbv zeta.
+      change (RCons l (shift k a) (TVar (n + k))) with (shift k (RCons l a (TVar n))).
+      change ((shift k r, shift k r'') :: shift_eqs k rest) with (shift_eqs k ((r, r'') :: rest)).
+      rewrite subst_eqs_shift.
+      change (S (n + k)) with (S n + k). rewrite IH.
+      destruct (unify fuel (S n) (subst_eqs b (RCons l a (TVar n)) ((r, r'') :: rest))) as [[s0 n0]| |]; auto.
+Qed.
+
+Lemma unify_shift : forall k fuel n eqs,
+  unify fuel (n + k) (shift_eqs k eqs) = shift_ures k (unify fuel n eqs).
+Proof.
+  intros k. induction fuel as [|fuel IH]; intros n eqs; auto.
+  destruct eqs as [|[t1 t2] rest]; auto.
+  assert (BIND : forall x u,
+    (if occurs (x + k) (shift k u) then Fail else
+       match unify fuel (n + k) (subst_eqs (x + k) (shift k u) (shift_eqs k rest)) with
+       | Ok (s0, n0) => Ok ((x + k, shift k u) :: s0, n0) | Fail => Fail | OutOfFuel => OutOfFuel end) =
+    shift_ures k
+      (if occurs x u then Fail else
+         match unify fuel n (subst_eqs x u rest) with
+         | Ok (s0, n0) => Ok ((x, u) :: s0, n0) | Fail => Fail | OutOfFuel => OutOfFuel end)).
+  { intros x u. rewrite occurs_shift. destruct (occurs x u); auto.
+    rewrite subst_eqs_shift, IH. destruct (unify fuel n (subst_eqs x u rest)) as [[s0 n0]| |]; auto. }
+  destruct t1, t2;
+    try (apply (unify_shift_row k fuel IH); fail);
+    simpl; auto;
+    try (match goal with |- context [subst_eqs ?x ?u rest] =>
+           match u with TVar _ => fail 1 | _ => exact (BIND x u) end end).
+  - (* var var *)
+    rewrite !eqb_shift. destruct (n0 =? n1) eqn:E.
+    + apply IH.
+    + pose proof (BIND n0 (TVar n1)) as B. simpl in B. rewrite eqb_shift in B. rewrite E in B. exact B.
+  - destruct (k0 =? k1); auto; try apply IH.
+  - destruct (c =? c0); auto; try apply IH.
+  - apply (IH n ((t1_1, t2_1) :: (t1_2, t2_2) :: rest)).
+  - apply (IH n ((t1, t2) :: rest)).
+Qed.
+
+Lemma unify1_shift : forall k fuel n a b,
+  unify fuel (n + k) [(shift k a, shift k b)] = shift_ures k (unify fuel n [(a, b)]).
+Proof. intros. exact (unify_shift k fuel n [(a, b)]). Qed.
+
+Lemma shift_var : forall k n, shift k (TVar n) = TVar (n + k).
+Proof. reflexivity. Qed.
+Lemma shift_fun : forall k a b, shift k (TFun a b) = TFun (shift k a) (shift k b).
+Proof. reflexivity. Qed.
+Lemma shift_array : forall k a, shift k (TArray a) = TArray (shift k a).
+Proof. reflexivity. Qed.
+Lemma shift_cons : forall k l a b, shift k (RCons l a b) = RCons l (shift k a) (shift k b).
+Proof. reflexivity. Qed.
+Lemma shift_con : forall k c, shift k (TCon c) = TCon c.
+Proof. reflexivity. Qed.
+
+Lemma apply_shift : forall k s t, apply (shift_sub k s) (shift k t) = shift k (apply s t).
+Proof.
+  induction s as [|[x u] s]; intros t; simpl; auto.
+  rewrite subst1_shift. apply IHs.
+Qed.
+
+Lemma shift_sub_app : forall k s1 s2, shift_sub k (s1 ++ s2) = shift_sub k s1 ++ shift_sub k s2.
+Proof. intros. unfold shift_sub. apply map_app. Qed.
+
+Lemma apply_env_shift : forall k s G, apply_env (shift_sub k s) (shift_env k G) = shift_env k (apply_env s G).
+Proof.
+  intros. unfold apply_env, shift_env. rewrite !map_map. apply map_ext. intros [x t]; simpl.
+  rewrite apply_shift. reflexivity.
+Qed.
+
+Lemma lookup_shift : forall k x G, lookup x (shift_env k G) = option_map (shift k) (lookup x G).
+Proof. induction G as [|[y t] G]; simpl; auto. destruct (x =? y); auto. Qed.
+
+Lemma tinst_shift : forall k n sc, tinst (fresh_inst (n + k)) (shift k sc) = shift k (tinst (fresh_inst n) sc).
+Proof.
+  unfold shift; induction sc; simpl; auto; try congruence.
+  unfold fresh_inst. f_equal. lia.
+Qed.
+
+Lemma gen_bound_shift : forall k sc, gen_bound (shift k sc) = gen_bound sc.
+Proof. unfold shift; induction sc; simpl; auto. Qed.
+
+Lemma ftv_shift : forall k t, ftv (shift k t) = map (fun x => x + k) (ftv t).
+Proof. unfold shift; induction t; simpl; auto; rewrite map_app; congruence. Qed.
+
+Lemma ftv_env_shift : forall k G, ftv_env (shift_env k G) = map (fun x => x + k) (ftv_env G).
+Proof.
+  induction G as [|[y t] G]; simpl; auto. unfold ftv_env in *; simpl.
+  rewrite map_app, ftv_shift, IHG. reflexivity.
+Qed.
+
+Lemma memb_shift : forall k x l, memb (x + k) (map (fun y => y + k) l) = memb x l.
+Proof. induction l; simpl; auto. rewrite eqb_shift, IHl. reflexivity. Qed.
+
+Lemma index_of_shift : forall k x l, index_of (x + k) (map (fun y => y + k) l) = index_of x l.
+Proof. induction l; simpl; auto. rewrite eqb_shift, IHl. reflexivity. Qed.
+
+Lemma gen_vars_shift : forall k G t,
+  gen_vars (shift_env k G) (shift k t) = map (fun x => x + k) (gen_vars G t).
+Proof.
+  intros. unfold gen_vars. rewrite ftv_shift, ftv_env_shift.
+  induction (ftv t) as [|y l IH]; simpl; auto.
+  rewrite memb_shift. destruct (memb y (ftv_env G)); simpl; rewrite IH; reflexivity.
+Qed.
+
+Lemma gen_shift : forall k G t, gen (shift_env k G) (shift k t) = shift k (gen G t).
+Proof.
+  intros. unfold gen. rewrite gen_vars_shift. unfold shift. rewrite !tsubst_comp.
+  apply tsubst_ext. intros x. simpl. unfold gen_fun. rewrite index_of_shift.
+  destruct (index_of x (gen_vars G t)); reflexivity.
+Qed.
+
+Definition shift_ires (k : nat) (r : res (subst * ty * nat)) : res (subst * ty * nat) :=
+  match r with Ok (s, t, n) => Ok (shift_sub k s, shift k t, n + k) | Fail => Fail | OutOfFuel => OutOfFuel end.
+
+Arguments shift : simpl never.
+
+Ltac fin := simpl; rewrite ?shift_sub_app, <- ?shift_var, ?apply_shift; reflexivity.
+
+(* Inference commutes with shifting every type variable (and the counter) by k. *)
+Lemma infer_shift : forall k e fuel G n,
+  infer fuel (shift_env k G) e (n + k) = shift_ires k (infer fuel G e n).
+Proof.
+  intros k. induction e; intros fuel G n0; simpl.
+  - reflexivity.
+  - reflexivity.
+  - rewrite lookup_shift. destruct (lookup x G); simpl; auto.
+    rewrite tinst_shift, gen_bound_shift.
+    replace (n0 + k + gen_bound t) with (n0 + gen_bound t + k) by lia. reflexivity.
+  - rewrite <- shift_var.
+    change ((x, shift k (TVar n0)) :: shift_env k G) with (shift_env k ((x, TVar n0) :: G)).
+    change (S (n0 + k)) with (S n0 + k). rewrite IHe.
+    destruct (infer fuel ((x, TVar n0) :: G) e (S n0)) as [[[s t] n1]| |]; simpl; auto.
+    rewrite apply_shift. reflexivity.
+  - rewrite IHe1. destruct (infer fuel G e1 n0) as [[[s1 t1] n1]| |]; simpl; auto.
+    rewrite apply_env_shift, IHe2.
+    destruct (infer fuel (apply_env s1 G) e2 n1) as [[[s2 t2] n2]| |]; simpl; auto.
+    rewrite apply_shift, <- shift_var, <- shift_fun. change (S (n2 + k)) with (S n2 + k).
+    rewrite unify1_shift.
+    destruct (unify fuel (S n2) [(apply s2 t1, TFun t2 (TVar n2))]) as [[u n3]| |]; simpl; auto.
+    rewrite !shift_sub_app, apply_shift. reflexivity.
+  - rewrite IHe1. destruct (infer fuel G e1 n0) as [[[s1 t1] n1]| |]; simpl; auto.
+    rewrite apply_env_shift, gen_shift.
+    change ((x, shift k (gen (apply_env s1 G) t1)) :: shift_env k (apply_env s1 G))
+      with (shift_env k ((x, gen (apply_env s1 G) t1) :: apply_env s1 G)).
+    rewrite IHe2.
+    destruct (infer fuel ((x, gen (apply_env s1 G) t1) :: apply_env s1 G) e2 n1) as [[[s2 t2] n2]| |]; simpl; auto.
+    rewrite shift_sub_app. reflexivity.
+  - change (TVar (S (n0 + k))) with (TVar (S n0 + k)). rewrite <- !shift_var, <- shift_fun.
+    change ((x, shift k (TVar n0)) :: (f, shift k (TFun (TVar n0) (TVar (S n0)))) :: shift_env k G)
+      with (shift_env k ((x, TVar n0) :: (f, TFun (TVar n0) (TVar (S n0))) :: G)).
+    change (S (S (n0 + k))) with (S (S n0) + k). rewrite IHe.
+    destruct (infer fuel ((x, TVar n0) :: (f, TFun (TVar n0) (TVar (S n0))) :: G) e (S (S n0))) as [[[s1 t1] n1]| |]; simpl; auto.
+    rewrite apply_shift, unify1_shift.
+    destruct (unify fuel n1 [(apply s1 (TVar (S n0)), t1)]) as [[u n2]| |]; simpl; auto.
+    rewrite shift_sub_app, !apply_shift. reflexivity.
+  - rewrite IHe1. destruct (infer fuel G e1 n0) as [[[s0 t0] n00]| |]; simpl; auto.
+    change (unify fuel (n00 + k) [(shift k t0, tbool)]) with (unify fuel (n00 + k) [(shift k t0, shift k tbool)]).
+    rewrite unify1_shift.
+    destruct (unify fuel n00 [(t0, tbool)]) as [[u0 m0]| |]; simpl; auto.
+    rewrite <- shift_sub_app, apply_env_shift, IHe2.
+    destruct (infer fuel (apply_env (s0 ++ u0) G) e2 m0) as [[[s1 t1] n1]| |]; simpl; auto.
+    rewrite apply_env_shift, IHe3.
+    destruct (infer fuel (apply_env s1 (apply_env (s0 ++ u0) G)) e3 n1) as [[[s2 t2] n2]| |]; simpl; auto.
+    rewrite apply_shift, unify1_shift.
+    destruct (unify fuel n2 [(apply s2 t1, t2)]) as [[u n3]| |]; simpl; auto.
+    rewrite !shift_sub_app, apply_shift. reflexivity.
+  - rewrite IHe1. destruct (infer fuel G e1 n0) as [[[s1 t1] n1]| |]; simpl; auto.
+    change (unify fuel (n1 + k) [(shift k t1, tint)]) with (unify fuel (n1 + k) [(shift k t1, shift k tint)]).
+    rewrite unify1_shift.
+    destruct (unify fuel n1 [(t1, tint)]) as [[u1 m1]| |]; simpl; auto.
+    rewrite <- shift_sub_app, apply_env_shift, IHe2.
+    destruct (infer fuel (apply_env (s1 ++ u1) G) e2 m1) as [[[s2 t2] n2]| |]; simpl; auto.
+    change (unify fuel (n2 + k) [(shift k t2, tint)]) with (unify fuel (n2 + k) [(shift k t2, shift k tint)]).
+    rewrite unify1_shift.
+    destruct (unify fuel n2 [(t2, tint)]) as [[u2 m2]| |]; simpl; auto.
+    rewrite !shift_sub_app. reflexivity.
+  - reflexivity.
+  - destruct (negb (is_fields e2) || has_label l e2); auto.
+    rewrite IHe1. destruct (infer fuel G e1 n0) as [[[s1 t1] n1]| |]; simpl; auto.
+    rewrite apply_env_shift, IHe2.
+    destruct (infer fuel (apply_env s1 G) e2 n1) as [[[s2 t2] n2]| |]; simpl; auto.
+    rewrite shift_sub_app, apply_shift. reflexivity.
+  - rewrite IHe. destruct (infer fuel G e n0) as [[[s1 t1] n1]| |]; simpl; auto.
+    change (TVar (S (n1 + k))) with (TVar (S n1 + k)). rewrite <- !shift_var, <- shift_cons.
+    change (S (S (n1 + k))) with (S (S n1) + k). rewrite unify1_shift.
+    destruct (unify fuel (S (S n1)) [(t1, RCons l (TVar n1) (TVar (S n1)))]) as [[u n2]| |]; simpl; auto.
+    rewrite shift_sub_app, apply_shift. reflexivity.
+  - reflexivity.
+  - destruct (negb (is_elems e2)); auto.
+    rewrite IHe1. destruct (infer fuel G e1 n0) as [[[s1 t1] n1]| |]; simpl; auto.
+    rewrite apply_env_shift, IHe2.
+    destruct (infer fuel (apply_env s1 G) e2 n1) as [[[s2 t2] n2]| |]; simpl; auto.
+    rewrite apply_shift, <- shift_array, unify1_shift.
+    destruct (unify fuel n2 [(TArray (apply s2 t1), t2)]) as [[u n3]| |]; simpl; auto.
+    rewrite !shift_sub_app, apply_shift. reflexivity.
+Qed.
+
+Lemma ftv_gen_closed : forall gs t, (forall x, In x (ftv t) -> In x gs) -> ftv (tsubst (gen_fun gs) t) = [].
+Proof.
+  induction t; simpl; intros H; auto.
+  - unfold gen_fun. destruct (In_index_of n gs (H n (or_introl eq_refl))) as [i E]. rewrite E. reflexivity.
+  - rewrite IHt1, IHt2; auto; intros; apply H; apply in_or_app; auto.
+  - rewrite IHt1, IHt2; auto; intros; apply H; apply in_or_app; auto.
+Qed.
+
+Lemma ftv_gen_nil : forall t, ftv (gen [] t) = [].
+Proof.
+  intros. unfold gen. apply ftv_gen_closed. intros x I. unfold gen_vars. apply filter_In. split; auto.
+Qed.
+
+Lemma shift_inv : forall k t, tsubst (fun x => TVar (x - k)) (shift k t) = t.
+Proof.
+  intros. unfold shift. rewrite tsubst_comp. rewrite <- (tsubst_id t) at 2.
+  apply tsubst_ext. intros x. simpl. f_equal. lia.
+Qed.
+
+(* An unused binding whose definition is typable changes nothing but the numbering of the type
+   variables: same acceptance, and the type is the type of the body with every variable shifted by
+   the number of variables the definition consumed (an injective renaming, [shift_inv]). *)
+Theorem infer_unused_let : forall x e1 e2 fuel s1 t1 n1,
+  occ x e2 = false -> infer fuel [] e1 0 = Ok (s1, t1, n1) ->
+  infer fuel [] (ELet x e1 e2) 0 =
+  match infer fuel [] e2 0 with
+  | Ok (s2, t2, n2) => Ok (s1 ++ shift_sub n1 s2, shift n1 t2, n2 + n1)
+  | Fail => Fail
+  | OutOfFuel => OutOfFuel
+  end.
+Proof.
+  intros x e1 e2 fuel s1 t1 n1 O H. simpl. rewrite H. simpl.
+  pose proof (infer_insert x (gen [] t1) (ftv_gen_nil t1) e2 fuel [] [] n1 O) as Q. simpl in Q. rewrite Q.
+  pose proof (infer_shift n1 e2 fuel [] 0) as S. simpl in S. rewrite S.
+  destruct (infer fuel [] e2 0) as [[[s2 t2] n2]| |]; reflexivity.
+Qed.
+
+Theorem infer_top_unused_let : forall x e1 e2 fuel t1,
+  occ x e2 = false -> infer_top fuel e1 = Ok t1 ->
+  exists k, infer_top fuel (ELet x e1 e2) =
+            match infer_top fuel e2 with Ok t2 => Ok (shift k t2) | Fail => Fail | OutOfFuel => OutOfFuel end.
+Proof.
+  intros x e1 e2 fuel t1 O H. unfold infer_top in *.
+  destruct (infer fuel [] e1 0) as [[[s1 t1'] n1]| |] eqn:E; try discriminate.
+  exists n1. rewrite (infer_unused_let x e1 e2 fuel s1 t1' n1 O E).
+  destruct (infer fuel [] e2 0) as [[[s2 t2] n2]| |]; reflexivity.
+Qed.
+
+(* Two rows that end in the same variable and need different fields from it do not unify (the side
+   condition that keeps the row rewriting from running forever). *)
+Theorem unify_same_tail_fails : forall fuel n l l' a a' b rest,
+  l <> l' ->
+  unify (S fuel) n ((RCons l a (TVar b), RCons l' a' (TVar b)) :: rest) = Fail.
+Proof.
+  intros fuel n l l' a a' b rest N. rewrite unify_rcons.
+  apply Nat.eqb_neq in N. rewrite N. simpl. rewrite N. simpl.
+  rewrite Nat.eqb_refl. rewrite !orb_true_r. reflexivity.
+Qed.
